@@ -35,6 +35,8 @@ func (s seg) String() string {
 		return s.src
 	case s.zeroes > 0:
 		return fmt.Sprintf("zero*%d", s.zeroes)
+	case s.vari && (strings.HasSuffix(s.src, "{") || s.src == "}"):
+		return s.src
 	case s.vari:
 		return s.src + "[*]"
 	case s.hi == s.lo:
@@ -521,6 +523,28 @@ func (c *Ctx) LayoutOf(v ssa.Value, at ssa.Instruction, d int) ([]seg, *layoutEr
 				return c.builderLayout(call.Call.Args[0], call)
 			}
 		}
+	case *ssa.UnOp:
+		// a variable captured by reference and assigned exactly once in the enclosing function
+		if fv, ok := x.X.(*ssa.FreeVar); ok && x.Op == token.MUL {
+			if sv := singleCapturedValue(fv); sv != nil {
+				if p, isParam := sv.(*ssa.Parameter); isParam {
+					return []seg{{src: p.Name(), vari: true}}, nil
+				}
+				return c.LayoutOf(sv, nil, d+1)
+			}
+		}
+	case *ssa.BinOp:
+		if bt, ok := x.Type().Underlying().(*types.Basic); ok && bt.Info()&types.IsString != 0 && x.Op == token.ADD {
+			a, err := c.LayoutOf(x.X, at, d+1)
+			if err != nil {
+				return nil, err
+			}
+			b, err := c.LayoutOf(x.Y, at, d+1)
+			if err != nil {
+				return nil, err
+			}
+			return append(append([]seg{}, a...), b...), nil
+		}
 	case *ssa.Phi:
 		// the zero-length initial value merged with an appended value in `var x []byte; if..{x = append(x,...)}` is not straight-line
 		return nil, &layoutErr{"value depends on control flow (phi)"}
@@ -568,6 +592,27 @@ func (c *Ctx) builderLayout(b ssa.Value, at ssa.Instruction) ([]seg, *layoutErr)
 				out = append(out, cellsToSegs(cs)...)
 				continue
 			}
+			if i := strings.Index(name, ".AddUint"); i >= 0 && strings.HasSuffix(name, "LengthPrefixed") {
+				width := strings.TrimSuffix(name[i+len(".AddUint"):], "LengthPrefixed")
+				child := funcOfValue(call.Call.Args[1])
+				if child == nil || len(child.Params) != 1 {
+					return nil, &layoutErr{"length-prefixed child is not a function literal"}
+				}
+				var last ssa.Instruction
+				for _, b := range child.Blocks {
+					if ret, ok := b.Instrs[len(b.Instrs)-1].(*ssa.Return); ok {
+						last = ret
+					}
+				}
+				inner, err := c.builderLayout(child.Params[0], last)
+				if err != nil {
+					return nil, err
+				}
+				out = append(out, seg{src: "u" + width + "len{", vari: true, zeroes: 0})
+				out = append(out, inner...)
+				out = append(out, seg{src: "}", vari: true})
+				continue
+			}
 			if strings.HasSuffix(name, ".AddBytes") {
 				l, err := c.LayoutOf(call.Call.Args[1], call, 1)
 				if err != nil {
@@ -611,4 +656,72 @@ func (c *Ctx) hashWrites(h ssa.Value, at ssa.Instruction) ([]seg, *layoutErr) {
 		return nil, &layoutErr{"no Write calls on the hash"}
 	}
 	return out, nil
+}
+
+// singleCapturedValue resolves a by-reference captured variable to the single value ever stored
+// to its cell (all closures included); nil if there are several stores or the cell escapes otherwise.
+func singleCapturedValue(fv *ssa.FreeVar) ssa.Value {
+	fn := fv.Parent()
+	idx := -1
+	for i, f := range fn.FreeVars {
+		if f == fv {
+			idx = i
+		}
+	}
+	parent := fn.Parent()
+	if idx < 0 || parent == nil {
+		return nil
+	}
+	var cell *ssa.Alloc
+	for _, b := range parent.Blocks {
+		for _, in := range b.Instrs {
+			if mc, ok := in.(*ssa.MakeClosure); ok && mc.Fn == ssa.Value(fn) && idx < len(mc.Bindings) {
+				a, ok := mc.Bindings[idx].(*ssa.Alloc)
+				if !ok || (cell != nil && cell != a) {
+					return nil
+				}
+				cell = a
+			}
+		}
+	}
+	if cell == nil {
+		return nil
+	}
+	var stored ssa.Value
+	n := 0
+	for _, ref := range *cell.Referrers() {
+		switch r := ref.(type) {
+		case *ssa.Store:
+			if r.Addr != ssa.Value(cell) {
+				return nil // the address itself is stored somewhere
+			}
+			stored = r.Val
+			n++
+		case *ssa.UnOp, *ssa.DebugRef:
+		case *ssa.MakeClosure:
+			// every closure capturing the cell must only read it
+			for i, bnd := range r.Bindings {
+				if bnd != ssa.Value(cell) {
+					continue
+				}
+				cf, _ := r.Fn.(*ssa.Function)
+				if cf == nil || i >= len(cf.FreeVars) {
+					return nil
+				}
+				for _, u := range *cf.FreeVars[i].Referrers() {
+					if uo, ok := u.(*ssa.UnOp); !ok || uo.Op != token.MUL {
+						if _, isDbg := u.(*ssa.DebugRef); !isDbg {
+							return nil
+						}
+					}
+				}
+			}
+		default:
+			return nil
+		}
+	}
+	if n != 1 {
+		return nil
+	}
+	return stored
 }
